@@ -29,6 +29,7 @@ func c05(e *Env) {
 	e.c05Reconnect("R6")
 	e.c05Pairing()
 	e.spawnRules("R8", "R8")
+	e.disconnectRule("R6")
 	e.slotMutexSpansLoop("R9")
 	// forwarding loops of Process.Run (also part of C04's delivery obligations)
 	e.forwardAllOutputs("R3")
@@ -36,12 +37,16 @@ func c05(e *Env) {
 
 // ---- R1/R2 ----------------------------------------------------------------
 
-func (e *Env) c05ProcRunLoop() {
+func (e *Env) c05ProcRunLoop() { e.procRunLoopAs("R1", "R2") }
+
+// procRunLoopAs: the scheduling-loop obligations under other rule ids (C07.R6: a scheduler that stops taking new tasks
+// for any reason but the closed feed is a second gate in front of the slots).
+func (e *Env) procRunLoopAs(r1, r2 string) {
 	r := e.R
 	a := e.anchors()
-	ob1 := r.Ob("R1", "(*Process).Run:loop-exit", "the scheduling loop can be left only when the feed channel variable is nil and the started-task queue is empty")
-	ob1b := r.Ob("R1", "(*Process).Run:feed-nil⇔closed", "the feed channel variable becomes nil only on the branch where the feed channel was found closed")
-	ob2 := r.Ob("R2", "(*Process).Run:select{feed,head.Done}", "receiving a new task and waiting for the oldest started task are arms of the same blocking select")
+	ob1 := r.Ob(r1, "(*Process).Run:loop-exit", "the scheduling loop can be left only when the feed channel variable is nil and the started-task queue is empty")
+	ob1b := r.Ob(r1, "(*Process).Run:feed-nil⇔closed", "the feed channel variable becomes nil only on the branch where the feed channel was found closed")
+	ob2 := r.Ob(r2, "(*Process).Run:select{feed,head.Done}", "receiving a new task and waiting for the oldest started task are arms of the same blocking select")
 	g := e.XG(a.procRun)
 	if g == nil {
 		return
@@ -932,6 +937,43 @@ func (e *Env) c05Reconnect(rule string) {
 		}
 		if nDis == 0 {
 			obc.Fail("(*Workflow).Run", "connections to processes outside the run set are never cut for "+k.kind)
+		}
+		// polarity and presence, by scenario: a consumer whose process is NOT in the run set (the membership lookup says
+		// "absent") is disconnected before the next connection is looked at
+		obm := r.Ob(rule, "reconnectDeadEndConnections:outside⇒cut#"+k.kind, "a consumer whose process is not among those being run is disconnected (scenario: the membership test says 'absent')")
+		isDisc := func(n *core.Node) bool {
+			return n.Callee != nil && n.Callee.Name() == "Disconnect" && n.Kind != core.KAfter && strings.Contains(core.FuncName(n.Callee), k.kind[:len(k.kind)-1]+")")
+		}
+		nLk := 0
+		for _, n := range g.Nodes {
+			lk, ok := n.Instr.(*ssa.Lookup)
+			if !ok || !lk.CommaOk || n.Kind == core.KAfter {
+				continue
+			}
+			mt, ok := lk.X.Type().Underlying().(*types.Map)
+			if !ok || typeNameOf(mt.Elem()) != "WorkflowProcess" {
+				continue
+			}
+			la, ok := e.loopOver(g, n, "RemotePorts")
+			if !ok {
+				continue
+			}
+			coll := e.loopCollection(g, la)
+			if (k.kind == "OutPorts") == strings.Contains(coll, "OutParamPorts(") {
+				continue // the other port kind's loop
+			}
+			nLk++
+			test, _, okT := g.LoopTest(la)
+			res := g.Run(core.Scenario{Start: n, Result: core.TupleAV(core.Top, core.BoolAV(false))})
+			stop := func(m *core.Node) bool { return m.Kind == core.KRootRet || (okT && m == test) }
+			if res.ReachesAvoiding(stop, isDisc) != nil {
+				obm.Fail(g.Where(n), "when the consumer's process is not in the run set the loop goes on to the next connection without Disconnect: the producer keeps sending to a process that never runs and blocks once its buffer is full")
+			} else {
+				obm.OK(g.Where(n), "absent ⇒ Disconnect before the next connection")
+			}
+		}
+		if nLk == 0 {
+			obm.Unknown("(*Workflow).Run", "no membership test (lookup in the map of processes to run) inside the loop over the connections")
 		}
 	}
 }
